@@ -95,6 +95,10 @@ func (ex *Exec) linkClosureContracts(st *State, fc *FuncContract, pc *preparedCa
 			}
 		}
 		a := pc.args[i]
+		if isCb && a.Clo == nil && a.Fn != nil {
+			ex.linkNamedFunc(st, fc, pc, a, pn)
+			continue
+		}
 		if !isCb || a.Clo == nil || a.Clo.Lit == nil {
 			continue
 		}
@@ -148,5 +152,77 @@ func (ex *Exec) linkClosureContracts(st *State, fc *FuncContract, pc *preparedCa
 			}
 			st.assume(t)
 		}
+	}
+}
+
+// linkNamedFunc: a named function or method expression handed to a `callback pure` parameter.
+// If that function has a contract without effects, its ensures are assumed for the callback's
+// function symbol (for pure contracts: the symbol equals the pure function itself).
+func (ex *Exec) linkNamedFunc(st *State, fc *FuncContract, pc *preparedCall, a Val, pn string) {
+	fn := a.Fn
+	cfc := ex.cs.Funcs[funcKey(fn)]
+	if cfc == nil || len(cfc.Modifies) > 0 {
+		return
+	}
+	csig, ok := under(a.GoT).(*types.Signature) // for a method expression the receiver is the first parameter
+	if !ok {
+		return
+	}
+	fsig := fn.Type().(*types.Signature)
+	var binders []string
+	var params []Val
+	for j := 0; j < csig.Params().Len(); j++ {
+		p := csig.Params().At(j)
+		s := ex.sortOf(p.Type())
+		name := fmt.Sprintf("q_c%d", j)
+		params = append(params, Val{T: name, S: s, GoT: p.Type()})
+		binders = append(binders, "("+name+" "+s.Name+")")
+	}
+	results := ex.callbackApp(a, pn, csig, params)
+	var recv *Val
+	args := params
+	if fsig.Recv() != nil && len(params) > 0 {
+		recv = &params[0]
+		args = params[1:]
+	}
+	quant := func(t string) string {
+		if len(binders) == 0 {
+			return t
+		}
+		return "(forall (" + strings.Join(binders, " ") + ") " + t + ")"
+	}
+	if cfc.Pure {
+		pv := ex.pureCall(nil, cfc, fn, recv, args)
+		for j := range results {
+			if j < len(pv) {
+				st.assume(quant(eq(results[j].T, pv[j].T)))
+			}
+		}
+		return
+	}
+	env := ex.calleeEnv(st, cfc, fn, recv, args)
+	for j, nm := range resultNames(cfc, fsig) {
+		if j < len(results) {
+			env.names[nm] = results[j]
+		}
+	}
+	var pre []string
+	for _, rq := range cfc.Requires {
+		t, err := env.elabBool(rq.Expr)
+		if err != nil {
+			return
+		}
+		pre = append(pre, t)
+	}
+	for _, en := range cfc.Ensures {
+		if en.Canary {
+			continue
+		}
+		t, err := env.elabBool(en.Expr)
+		if err != nil {
+			ex.fail(pc.call.Pos(), "linking %s to callback %s of %s: %v", cfc.Key, pn, fc.Key, err)
+			continue
+		}
+		st.assume(quant(implies(and(pre...), t)))
 	}
 }
